@@ -29,6 +29,7 @@ import (
 
 	"github.com/titpetric/vuego"
 
+	"verif/internal/compose"
 	"verif/internal/ev"
 	"verif/internal/hx"
 	"verif/internal/kf"
@@ -151,6 +152,9 @@ func sortedCopy(s []string) []string {
 }
 
 func replay(kind string, raw json.RawMessage) error {
+	if kind == compose.Kind {
+		return compose.Replay(raw)
+	}
 	switch kind {
 	case "table", "value":
 		return run.Decode(raw, checkTruth)
@@ -163,6 +167,8 @@ func TestProp(t *testing.T) {
 	rec := ev.New(prop)
 	defer run.Finish(t, rec)
 	run.Witnesses(rec, prop, replay)
+	// cross-feature compositions checked against the shared reference interpreter
+	compose.Family(t, rec, "chain", "v-show")
 	open := openFindings()
 	shard, shards := run.Shard()
 
